@@ -180,6 +180,9 @@ func (s *Service) handler(ctx context.Context, p p2p.Peer, stream p2p.Stream) (e
 	if err != nil {
 		return err
 	}
+	if signedCheque == nil || signedCheque.CumulativePayout == nil {
+		return fmt.Errorf("malformed cheque from peer %v", p.Address)
+	}
 
 	return s.traffic.ReceiveCheque(ctx, p.Address, signedCheque)
 }
